@@ -371,6 +371,7 @@ pub async fn run_case(c: &Case, port_base: u16) -> Outcome {
     a.start();
     let send_errors = Arc::new(Mutex::new(Vec::<String>::new()));
     let mut started0 = [false, false];
+    let mut eager_started = false;
     let mut phase1_started = false;
     let mut closes_done = c.closes.is_empty();
     let has_phase1 = c.msgs.iter().any(|m| m.phase == 1);
@@ -407,9 +408,13 @@ pub async fn run_case(c: &Case, port_base: u16) -> Outcome {
         // submitted once its channel exists on that side
         let mut to_start: Vec<(usize, u8)> = vec![];
         for side in 0..2 { if !started0[side] && st[side] == SctpState::Connected { started0[side] = true; to_start.push((side, 0)); } }
+        // eager tasks (id ≥ 200) do not wait for anything: they call send from the first moment on
+        if !eager_started { eager_started = true; to_start.push((0, 200)); to_start.push((1, 200)); }
         if has_phase1 && !phase1_started && phase0_quiet { phase1_started = true; last_activity = Instant::now(); to_start.push((0, 1)); to_start.push((1, 1)); }
         for (side, ph) in to_start {
-            let mut tasks: Vec<u8> = c.msgs.iter().filter(|m| m.side == side && m.phase == ph).map(|m| m.task).collect();
+            let eager = ph == 200;
+            let ph = if eager { 0 } else { ph };
+            let mut tasks: Vec<u8> = c.msgs.iter().filter(|m| m.side == side && m.phase == ph && (m.task >= 200) == eager).map(|m| m.task).collect();
             tasks.sort(); tasks.dedup();
             for task in tasks {
                 let msgs: Vec<Msg> = c.msgs.iter().filter(|m| m.side == side && m.phase == ph && m.task == task).cloned().collect();
@@ -420,6 +425,19 @@ pub async fn run_case(c: &Case, port_base: u16) -> Outcome {
                 sender_handles.push(tokio::spawn(async move {
                     for m in msgs {
                         let t = Instant::now();
+                        if eager {
+                            // an impatient application: calls send at once and again until it is accepted; whatever
+                            // send accepted (Ok) on a reliable channel has to arrive
+                            loop {
+                                match sctp.send_data(m.chan, &m.data).await {
+                                    Ok(()) => break,
+                                    Err(e) if t.elapsed() > Duration::from_secs(5) => { errs.lock().push(format!("send ch{}: {e}", m.chan)); return; }
+                                    Err(_) => tokio::time::sleep(Duration::from_millis(1)).await,
+                                }
+                            }
+                            tokio::task::yield_now().await;
+                            continue;
+                        }
                         // like an application: send only on a channel that has announced Open
                         while !chans.lock().iter().any(|w| w.upgrade().map(|d| d.id == m.chan
                             && d.state.load(std::sync::atomic::Ordering::SeqCst) == 1).unwrap_or(false)) {
